@@ -176,7 +176,9 @@ def _unit(args):
                         out['sat'].append(dict(
                             name=nm, model=_model_jsonable(w or {}),
                             trace=rec['trace'], detail=str(exc)[:300],
-                            tb=tb[-1500:]))
+                            tb=tb[-1500:],
+                            candidate=bool(getattr(ctx, 'lazy_decide',
+                                                   False))))
             else:
                 # reachability witness: path condition must be satisfiable
                 if ctx.obligations and h.reach == 'concrete':
@@ -208,7 +210,9 @@ def _unit(args):
                             name=ob['name'], key=ob.get('key'),
                             model=_model_jsonable(ob.get('model') or {}),
                             trace=ob['decisions'],
-                            candidate=ob.get('candidate', False)))
+                            candidate=bool(ob.get('candidate', False) or
+                                           getattr(ctx, 'lazy_decide',
+                                                   False))))
                 else:
                     out['unknown'].append(dict(name=ob['name'],
                                                status=ob['status'],
@@ -267,7 +271,11 @@ def _unit(args):
 _PROXY_WORDS = ('SReal', 'SComplex', 'SInt', 'SBool', 'SBV', 'SFP',
                 "dtype('O')", 'dtype(O)', 'object arrays', "dtype('object')",
                 'Cannot cast array data from dtype', 'not supported for the '
-                'input types', 'object of type')
+                'input types', 'object of type', "`.real` isn't a view",
+                "`.imag` isn't a view")
+
+
+STRICT = bool(os.environ.get('VERIF_STRICT'))
 
 
 def _engine_limitation(exc):
@@ -349,6 +357,7 @@ def run_check(prop, tier='quick', only=None, jobs=None):
     known = load_known(prop)
     known_keys = {e['key']: e for e in known if e.get('status') == 'known'}
     violations, known_hits, inconclusive, degraded = [], {}, [], []
+    unproved = []
     replay_dir = os.path.join(VERIF, 'replays', prop)
     cex_records = []
     for r in results:
@@ -411,6 +420,7 @@ def run_check(prop, tier='quick', only=None, jobs=None):
                 (h.name, r['cfg']))
         reproduced_names = set()
         pending_inconclusive = {}
+        pending_unproved = {}
         for s in r['sat']:
             if s['name'] in reproduced_names:
                 continue
@@ -442,12 +452,27 @@ def run_check(prop, tier='quick', only=None, jobs=None):
                                        model=s['model'],
                                        replay=_jsonable(rp)), f, indent=1)
                     violations.append((key, fn))
+            elif s.get('candidate') and not STRICT and r['concrete'] > 0 \
+                    and not r.get('concrete_error') and not \
+                    r.get('concrete_violation'):
+                # "sat" of an INCOMPLETE prover (monomial abstraction, path
+                # whose feasibility was not established): no counterexample,
+                # only a proof that was not found.  With passing concrete
+                # oracle runs of the real code the unit is reported as
+                # UNPROVED (exit 0; exit 2 with VERIF_STRICT=1).
+                pending_unproved[s['name']] = (
+                    '%s cfg=%s: %s not proved (incomplete prover; candidate '
+                    'did not reproduce on the real code: %s)' %
+                    (h.name, r['cfg'], s['name'],
+                     str(rp.get('detail'))[:200]))
             else:
                 pending_inconclusive[s['name']] = (
                     '%s cfg=%s: counterexample for %s did not reproduce on '
                     'the real code (%s)' % (h.name, r['cfg'], s['name'],
                                             str(rp.get('detail'))[:300]))
         inconclusive.extend(pending_inconclusive.values())
+        unproved.extend(v for k, v in pending_unproved.items()
+                        if k not in reproduced_names)
 
     # ---- evidence --------------------------------------------------------------
     from pysym import core
@@ -513,6 +538,7 @@ def run_check(prop, tier='quick', only=None, jobs=None):
         known_findings_hit=sorted(known_hits),
         inconclusive=inconclusive[:40],
         degraded_units=degraded[:40],
+        unproved=unproved[:40],
         exhaustive=False,
         explanation=getattr(mod, 'EXPLANATION', ''))
     ev = dict(property_id=prop, tier=tier, seed=seed, level=level,
@@ -540,6 +566,8 @@ def run_check(prop, tier='quick', only=None, jobs=None):
            coverage['traces_validated_against_impl'], time.time() - t0))
     for m in degraded[:10]:
         print('DEGRADED: ' + m[:300])
+    for m in unproved[:10]:
+        print('UNPROVED: ' + m[:300])
     if violations:
         return EXIT_VIOLATION
     if inconclusive:
